@@ -3,6 +3,7 @@ import ast
 
 from ..model import (AnalysisError, FUNC_TYPES, U, call_attr, call_name, dotted, enclosing, enclosing_function, guard_texts, guards_ex,
                      short, walk_body, walk_local, ancestors, parent, const_str, kwarg)
+from .. import feat
 from ..util import params, find_calls, assigns_to, trace, stmt_of, has_exit, syn_dominates, line_loop, some_truthy
 from ..cfg import handler_names, is_catch_all
 from . import c06
@@ -279,13 +280,18 @@ def r6_gating(cx):
         cx.require(g == set([("self.split", True), ("self._filters", True)]), x, "command pre-filtering runs whenever output is split into lines and filters exist",
                    construct="command.append([...grep...]) guarded by %s" % sorted(g))
     cl = sf.func("ContentProvider._clean_content", "C07.R6")
-    al = [a for a in walk_body(cl.body) if isinstance(a, ast.Assign) and U(a.targets[0]) == "allowlist"]
-    set_ = [a for a in al if U(a.value) == "self._filters"]
-    none_ = [a for a in al if U(a.value) == "None"]
     call = [x for x in find_calls(cl.body, attr="clean_content")]
-    ok = len(set_) == 1 and len(none_) == 1 and ("self._filterable", True) in guard_texts(set_[0]) and bool(call) and kwarg(call[0], "allowlist") is not None and U(kwarg(call[0], "allowlist")) == "allowlist"
-    cx.require(ok, set_[0] if set_ else cl, "the cleaner receives the provider's filters as allow-list iff the spec is filterable",
-               construct="allowlist = self._filters (if self._filterable) -> clean_content(allowlist=allowlist)")
+    ok, cases = False, None
+    if call and kwarg(call[0], "allowlist") is not None:
+        av = kwarg(call[0], "allowlist")
+        want = set([(frozenset([("self._filterable", True)]), "self._filters"), (frozenset([("self._filterable", False)]), "None")])
+        if isinstance(av, ast.Name):
+            cases = feat.value_cases(cl, av.id, before=call[0], common=guard_texts(call[0]))
+        elif isinstance(av, ast.IfExp):
+            cases = set([(frozenset([(U(av.test), True)]), U(av.body)), (frozenset([(U(av.test), False)]), U(av.orelse))])
+        ok = cases == want
+    cx.require(ok, call[0] if call else cl, "the cleaner receives the provider's filters as allow-list iff the spec is filterable",
+               construct="allowlist cases: %s" % (sorted((sorted(g), v) for g, v in cases) if cases else None))
 
 
 def r7_copy_before_mutation(cx, mods):
